@@ -2,4 +2,5 @@
 EXTENDS Integers
 NegOne == -1
 DEV_none == {}
+DEV_set_ErrorReplyIgnoresAddressing == {"ErrorReplyIgnoresAddressing"}
 ====
